@@ -191,3 +191,65 @@ Proof.
   all: rewrite (xl_for_append_ext ex (fun c => XeTriggerChild c t)) by (intros a x _; generalize (ex x); xl_crush).
   all: cbn [app]; destruct (d_trigger d =? 0); reflexivity.
 Qed.
+
+(* ------------------------------------------------------------------ C01 (stretch): regions of Checkable::ProcessCheckResult
+   translated as state-passing functions, against the model's step_accept:
+   (1) lines "long attempt = 1; ... " up to "if (!reachable)": new state type, attempt counter and the recovery flag;
+   (2) the stateChange computation; (3) the hardChange computation. *)
+Definition xst_num (t : stype) : Z := match t with Soft => f_StateTypeSoft | Hard => f_StateTypeHard end.
+
+Lemma src_pcr_state_type_attempt_eq : src_pcr_state_type_attempt_recognised = true ->
+  forall c s r,
+    src_pcr_state_type_attempt (xk_is_host (c_kind c)) (sstate_num (s_raw s)) (xst_num (s_type s)) (s_attempt s)
+      (sstate_num (r_state r)) (c_max c) false (xst_num (s_type s))
+    = (s_attempt (fst (step_accept c s r)), i_recovery (snd (step_accept c s r)), xst_num (s_type (fst (step_accept c s r)))).
+Proof.
+  intro Hrec; xl_rec Hrec.
+  all: intros c s r; unfold src_pcr_state_type_attempt, step_accept.
+  all: rewrite !(src_checkable_is_state_ok_eq eq_refl).
+  all: generalize (is_ok (c_kind c) (r_state r)) (is_ok (c_kind c) (s_raw s)); intros okn oko.
+  all: destruct (s_type s); cbn [stype_eqb xst_num]; unfold f_StateTypeSoft, f_StateTypeHard.
+  all: destruct okn, oko; cbn; xl_crush.
+Qed.
+
+(* projections of step_accept that do not depend on the (type, attempt, recovery) triple *)
+Lemma xsa_state_change : forall c s r,
+  i_state_change (snd (step_accept c s r)) =
+  match c_kind c with
+  | KService => negb (sstate_eqb (s_raw s) (r_state r))
+  | KHost => negb (Bool.eqb (host_up (s_raw s)) (host_up (r_state r)))
+  end.
+Proof.
+  intros c s r; unfold step_accept.
+  destruct (if is_ok (c_kind c) (r_state r) then _ else _) as [[ty att] rec]; reflexivity.
+Qed.
+
+Lemma xsa_hard_change : forall c s r,
+  i_hard_change (snd (step_accept c s r)) =
+  (stype_eqb (s_type (fst (step_accept c s r))) Hard && stype_eqb (s_type s) Soft)
+  || (i_state_change (snd (step_accept c s r)) && stype_eqb (s_type s) Hard && stype_eqb (s_type (fst (step_accept c s r))) Hard).
+Proof.
+  intros c s r; unfold step_accept.
+  destruct (if is_ok (c_kind c) (r_state r) then _ else _) as [[ty att] rec]; reflexivity.
+Qed.
+
+Lemma src_pcr_state_change_eq : src_pcr_state_change_recognised = true ->
+  forall c s r,
+    src_pcr_state_change (negb (xk_is_host (c_kind c))) (sstate_num (s_raw s)) (sstate_num (r_state r))
+    = i_state_change (snd (step_accept c s r)).
+Proof.
+  intro Hrec; xl_rec Hrec.
+  all: intros c s r; rewrite xsa_state_change; unfold src_pcr_state_change.
+  all: destruct (c_kind c), (s_raw s), (r_state r); reflexivity.
+Qed.
+
+Lemma src_pcr_hard_change_eq : src_pcr_hard_change_recognised = true ->
+  forall c s r,
+    src_pcr_hard_change (i_state_change (snd (step_accept c s r))) (xst_num (s_type s)) (xst_num (s_type (fst (step_accept c s r))))
+    = i_hard_change (snd (step_accept c s r)).
+Proof.
+  intro Hrec; xl_rec Hrec.
+  all: intros c s r; rewrite xsa_hard_change; unfold src_pcr_hard_change.
+  all: generalize (i_state_change (snd (step_accept c s r))) (s_type (fst (step_accept c s r))); intros sc ty.
+  all: destruct (s_type s), ty, sc; reflexivity.
+Qed.
